@@ -11,7 +11,13 @@
 //! open/cancel futures sleep for the scripted delay and then return the scripted result (or pend
 //! forever). Requests are injected at the scripted virtual instants; the response channel is
 //! drained with `tokio::time::Instant` stamps. One NDJSON line per observation:
-//!   Reset | Accept(id, at, script) | Emit(id, kind, at, projected event) | Shutdown(at) | End(at)
+//!   Reset | Accept(id, at, script) | Emit(id, kind, at, projected event) | Stall(at) | Shutdown(at) | End(at)
+//! STALL scenarios (`stall: [from, to]`): at virtual instant `from`, after the requests of that
+//! instant have been handed over and the manager has taken them, the clock is moved to `to` in ONE
+//! jump (`tokio::time::advance`) - the manager task is not polled in between, so every timer that
+//! elapses inside the jump (client responses and request deadlines) is delivered in a single driver
+//! turn, as on a stalled / busy executor. The events then appear at `to`; which event a request
+//! gets must still be decided by its delay vs the timeout.
 //! `Trace_ExecManager.tla` is the oracle. Lines the projection cannot express (foreign client
 //! order id, other event kinds, a panic, a manager that does not stop) are written as
 //! `{"a":"Anomaly",..}` and screened by bin/props/c07.py.
@@ -81,6 +87,8 @@ struct Req {
 struct Scenario {
     t: u64,
     shut: Option<u64>,
+    /// (from, to): one clock jump during which the manager is not scheduled
+    stall: Option<(u64, u64)>,
     reqs: Vec<Req>,
 }
 
@@ -89,6 +97,9 @@ fn scenario_of(v: &Value) -> Scenario {
     Scenario {
         t: i(v, "T") as u64,
         shut: (shut >= 0).then_some(shut as u64),
+        stall: v.get("stall").and_then(|x| x.as_array()).filter(|a| a.len() == 2).map(|a| {
+            (a[0].as_u64().unwrap_or_else(|| usage("stall")), a[1].as_u64().unwrap_or_else(|| usage("stall")))
+        }),
         reqs: v["reqs"]
             .as_array()
             .unwrap_or_else(|| usage("reqs"))
@@ -114,6 +125,7 @@ fn scenario_json(scn: &Scenario) -> Value {
     json!({
         "T": scn.t,
         "shut": scn.shut.map(|x| x as i64).unwrap_or(-1),
+        "stall": scn.stall.map(|(a, b)| json!([a, b])).unwrap_or(json!([])),
         "reqs": scn.reqs.iter().map(|r| json!({
             "id": r.id, "k": if r.open { "open" } else { "cancel" }, "at": r.at,
             "d": r.d.map(|x| x as i64).unwrap_or(-1),
@@ -223,7 +235,7 @@ fn anomaly(n: usize, at: u64, what: String) -> Value {
 
 fn accept_line(n: usize, at: u64, r: &Req) -> Value {
     let mut l = blank("Accept", n, at);
-    let s = scenario_json(&Scenario { t: 0, shut: None, reqs: vec![r.clone()] });
+    let s = scenario_json(&Scenario { t: 0, shut: None, stall: None, reqs: vec![r.clone()] });
     for (k, v) in s["reqs"][0].as_object().unwrap() {
         l[k] = v.clone();
     }
@@ -437,6 +449,8 @@ struct Stats {
     dropped_by_shutdown: usize,
     max_outstanding: usize,
     anomalies: usize,
+    stalls: usize,
+    stalled_over: usize,
 }
 
 async fn run_scenario(n: usize, scn: &Scenario, out: &mut Out, st: &mut Stats) {
@@ -472,7 +486,9 @@ async fn run_scenario(n: usize, scn: &Scenario, out: &mut Out, st: &mut Stats) {
     let mut order: Vec<usize> = (0..scn.reqs.len()).collect();
     order.sort_by_key(|&j| scn.reqs[j].at);
     let mut next = 0usize;
-    let end = scn.reqs.iter().map(|r| r.at + scn.t).chain(scn.shut).max().unwrap_or(0) + MARGIN_MS;
+    let end = scn.reqs.iter().map(|r| r.at + scn.t).chain(scn.shut).chain(scn.stall.map(|(_, to)| to + scn.t)).max().unwrap_or(0)
+        + MARGIN_MS;
+    let mut stall = scn.stall.filter(|(from, to)| to > from);
     let mut shutdown_sent = false;
     let mut joined = false;
     let mut closed = false;
@@ -487,7 +503,7 @@ async fn run_scenario(n: usize, scn: &Scenario, out: &mut Out, st: &mut Stats) {
         } else {
             let next_req = (!shutdown_sent && next < order.len()).then(|| scn.reqs[order[next]].at);
             let next_shut = if shutdown_sent { None } else { scn.shut };
-            [next_req, next_shut, Some(end)].into_iter().flatten().min().unwrap()
+            [next_req, next_shut, stall.map(|(from, _)| from), Some(end)].into_iter().flatten().min().unwrap()
         };
         tokio::select! {
             biased;
@@ -556,6 +572,33 @@ async fn run_scenario(n: usize, scn: &Scenario, out: &mut Out, st: &mut Stats) {
                     st.shutdowns_scripted += 1;
                     let _ = req_tx.tx.send(ExecutionRequest::Shutdown);
                 }
+                if let Some((from, to)) = stall.filter(|(from, _)| *from <= at) {
+                    stall = None;
+                    let _ = from;
+                    // let the manager take what was handed over at this instant (its request
+                    // futures and their deadlines start now), and collect what it emits at once
+                    for _ in 0..4 {
+                        tokio::task::yield_now().await;
+                    }
+                    while let Ok(event) = resp_rx.rx.try_recv() {
+                        let line = emit_line(n, at, &event);
+                        if line["a"] == "Anomaly" { st.anomalies += 1 } else {
+                            outstanding.remove(&line["id"].as_i64().unwrap());
+                            if line["k"] == "timeout" { st.timeout += 1 } else { st.resp += 1 }
+                        }
+                        out.line(&line);
+                    }
+                    if to > at {
+                        // ONE jump: the manager is not polled between `at` and `to`
+                        st.stalls += 1;
+                        st.stalled_over += scn.reqs.iter().filter(|r| outstanding.contains_key(&r.id)
+                            && r.at + r.d.map_or(scn.t, |d| d.min(scn.t)) < to).count();
+                        tokio::time::advance(Duration::from_millis(to - at)).await;
+                        let now = stamp(out, st);
+                        out.line(&blank("Stall", n, now));
+                    }
+                    continue;
+                }
                 if at >= end {
                     ended = true;
                     out.line(&blank("End", n, at));
@@ -573,7 +616,7 @@ async fn run_scenario(n: usize, scn: &Scenario, out: &mut Out, st: &mut Stats) {
 // ------------------------------------------------------------------------------------------------
 // random batches
 // ------------------------------------------------------------------------------------------------
-fn random_scenario(rng: &mut impl Rng, t: u64, max: usize) -> Scenario {
+fn random_scenario(rng: &mut impl Rng, t: u64, max: usize, no_stall: bool) -> Scenario {
     let n = if rng.random_bool(0.5) { max } else { rng.random_range(1..=max) };
     // arrivals inside a window shorter than the timeout: everything can be outstanding at once
     let window = if rng.random_bool(0.7) { t * 6 / 10 } else { t * 3 };
@@ -607,7 +650,13 @@ fn random_scenario(rng: &mut impl Rng, t: u64, max: usize) -> Scenario {
         });
     }
     let shut = rng.random_bool(0.2).then(|| rng.random_range(0..=window + 2 * t));
-    Scenario { t, shut, reqs }
+    // a stall: after the last arrival one jump over (most of) the due instants
+    let stall = (!no_stall && rng.random_bool(0.5)).then(|| {
+        let from = reqs.iter().map(|r| r.at).max().unwrap_or(0);
+        (from, from + rng.random_range(1..=3 * t))
+    });
+    let shut = if stall.is_some() { None } else { shut };
+    Scenario { t, shut, stall, reqs }
 }
 
 #[tokio::main(flavor = "current_thread", start_paused = true)]
@@ -629,7 +678,7 @@ async fn main() {
             let max = args.usize("max", 200);
             let mut scn_out = Out::create(args.req("scn-out"));
             for n in 0..args.usize("batches", 10) {
-                let scn = random_scenario(&mut rng, t, max);
+                let scn = random_scenario(&mut rng, t, max, args.get("stalls") == Some("off"));
                 scn_out.line(&scenario_json(&scn));
                 run_scenario(n, &scn, &mut out, &mut st).await;
             }
@@ -645,6 +694,7 @@ async fn main() {
                "ties_emitted_as_response": st.ties_resp, "ties_emitted_as_timeout": st.ties_timeout,
                "consecutive_events_at_one_instant": st.same_instant_pairs,
                "scripted_shutdowns": st.shutdowns_scripted, "requests_dropped_by_shutdown": st.dropped_by_shutdown,
-               "max_outstanding": st.max_outstanding, "anomalies": st.anomalies})
+               "max_outstanding": st.max_outstanding, "anomalies": st.anomalies,
+               "stalls": st.stalls, "requests_due_inside_a_stall": st.stalled_over})
     );
 }
